@@ -292,6 +292,11 @@ class Exec(ExprMixin, StmtMixin, CallMixin):
         else:
             mod, cls, fn, src = self.prog.find(ct.qual)
             self.cur_module, self.cur_class = mod, cls
+            for d in fn.decorator_list:
+                dt = ast.unparse(d)
+                if not (dt in ('property', 'staticmethod', 'classmethod', 'track_production') or dt.endswith('.setter') or dt.endswith('.getter')):
+                    # a decorator replaces the function that runs (cache, wrapper, registration): the body alone is not the code
+                    raise OutsideSubset('decorator @%s: the decorated function is not the extracted body' % dt)
         self.fn = fn
         self.roles = {}
         last = fn.body[-1] if fn.body else None
